@@ -21,6 +21,7 @@ pub const REQUIRED: &[&str] = &[
     "regex_tokenizer",
     "cased_regex_with_lowercasing",
     "cased_regex_without_lowercasing",
+    "function_tokenizer_generations",
 ];
 
 #[derive(Debug, Clone, Serialize, Deserialize)]
@@ -354,7 +355,7 @@ fn count_params(obs: &mut Obs, k: &mut Knobs, x: &Array1<String>, _q: &Array1<St
 }
 
 /// Obligations for a fitted count vectoriser given how its tokenizer was configured.
-fn fitted_obligations<M: Clone>(
+fn fitted_obligations<M: Clone + Serialize + serde::de::DeserializeOwned>(
     obs: &mut Obs,
     t: &str,
     fmt: Fmt,
@@ -375,20 +376,51 @@ fn fitted_obligations<M: Clone>(
             Ok(g) => must(obs, t, fmt, "transform", g == *want),
         },
         Tk::Function => {
-            // until the function is supplied again the restored vectoriser must refuse
-            match vengine::guard(|| view(back)) {
-                Err(p) => obs.fail(format!("{t}:transform-panics:{}", fmt.name()), p),
-                Ok(Err(e)) => must(obs, t, fmt, "tokenizer-guard-error-kind", e == not_set_text),
-                Ok(Ok(_)) => obs.fail(
-                    format!("{t}:tokenizer-guard-missing:{}", fmt.name()),
-                    "a vectoriser fitted with a function tokenizer transforms after the round trip although the function was never supplied again",
-                ),
-            }
-            let mut again = back.clone();
-            redefine(&mut again);
-            match vengine::guard(|| view(&again)) {
-                Err(p) => obs.fail(format!("{t}:transform-after-redefinition-panics:{}", fmt.name()), p),
-                Ok(g) => must(obs, t, fmt, "transform-after-redefinition", g == *want),
+            // Generations: restore -> (must refuse) -> supply the function again (must behave like the original) -> serialise that
+            // working object -> restore -> must refuse again ... A function pointer never travels, whatever happened before.
+            let mut current: M = back.clone();
+            for generation in 1..=3u8 {
+                let (missing, after) = if generation == 1 {
+                    (format!("{t}:tokenizer-guard-missing:{}", fmt.name()), "transform-after-redefinition".to_string())
+                } else {
+                    (
+                        format!("{t}:tokenizer-guard-missing-after-redefinition:{}", fmt.name()),
+                        format!("transform-after-redefinition-gen{generation}"),
+                    )
+                };
+                match vengine::guard(|| view(&current)) {
+                    Err(p) => obs.fail(format!("{t}:transform-panics:{}", fmt.name()), p),
+                    Ok(Err(e)) => must(obs, t, fmt, "tokenizer-guard-error-kind", e == not_set_text),
+                    Ok(Ok(_)) => obs.fail(
+                        missing,
+                        format!(
+                            "generation {generation}: a vectoriser fitted with a function tokenizer transforms right after being restored although the function was \
+                             not supplied again to this copy (it silently uses the regex tokenizer)"
+                        ),
+                    ),
+                }
+                let mut working = current.clone();
+                redefine(&mut working);
+                match vengine::guard(|| view(&working)) {
+                    Err(p) => obs.fail(format!("{t}:{after}-panics:{}", fmt.name()), p),
+                    Ok(g) => must(obs, t, fmt, &after, g == *want),
+                }
+                if generation == 3 {
+                    break;
+                }
+                // the repaired, working object is serialised again
+                current = match vengine::guard(|| fmt.ser(&working).and_then(|b| fmt.de::<M>(&b))) {
+                    Ok(Ok(next)) => next,
+                    Ok(Err(e)) => {
+                        obs.fail(format!("{t}:second-generation-roundtrip-error:{}", fmt.name()), e);
+                        break;
+                    }
+                    Err(p) => {
+                        obs.fail(format!("{t}:second-generation-roundtrip-panics:{}", fmt.name()), p);
+                        break;
+                    }
+                };
+                obs.class("function_tokenizer_generations");
             }
         }
         Tk::FunctionThenRegex => match vengine::guard(|| view(back)) {
